@@ -35,7 +35,7 @@ CASES = {"quick": 3000, "thorough": 60000}
 MIN_CASES = {"quick": 800, "thorough": 15000}
 PRODUCERS = ["die", "allocation", "netgen", "floorset", "rect_get_netlist", "rect_solution", "legaliser", "netlist_writer"]
 REQUIRED_CLASSES = PRODUCERS
-REQUIRED_COUNTERS = ["failed_writes_provoked_earlier"] + ["reread_compared:" + p for p in PRODUCERS] + ["twice_compared:" + p for p in PRODUCERS] + ["source_unchanged_checked:" + p for p in PRODUCERS]
+REQUIRED_COUNTERS = ["floorset_blocks_compared_with_source", "floorset_blocks_with_both_flags", "failed_writes_provoked_earlier"] + ["reread_compared:" + p for p in PRODUCERS] + ["twice_compared:" + p for p in PRODUCERS] + ["source_unchanged_checked:" + p for p in PRODUCERS]
 SOFT_DEADLINE = {"quick": 240, "thorough": 3300}
 TOPOLOGIES = ["grid", "chain", "ring", "star", "ring-star", "one-net", "htree"]
 
@@ -444,6 +444,19 @@ def check_floorset(case, ctx):
     ctx.nontrivial(n + len(case["pins"]) >= 2)
     snap_mods = copy.deepcopy(inst.modules)
     snap_nets = [(list(e.modules), e.weight) for e in inst.nets]
+    # the converted modules against the SOURCE instance (not against the converter's own state): block k is module Mk; a pre-placed
+    # block is fixed (whatever its other flags), a fixed-shape block is hard, any other block is soft with the block's area
+    for k, b in enumerate(blocks):
+        src = snap_mods.get(f"M{k}")
+        ctx.count("floorset_blocks_compared_with_source")
+        if b["fixed"] and b["preplaced"]:
+            ctx.count("floorset_blocks_with_both_flags")
+        want_kind = "fixed" if b["preplaced"] else "hard" if b["fixed"] else "soft"
+        got = None if src is None else ("fixed" if src.get("fixed") else "hard" if src.get("hard") else "soft")
+        if got != want_kind:
+            ctx.violation("floorset:kind_differs_from_source", f"block {k} (fixed-shape={b['fixed']}, pre-placed={b['preplaced']}) converted to {got}, expected {want_kind}")
+        elif want_kind == "soft" and not rel_eq(float(src.get("area", -1)), b["area"]):
+            ctx.violation("floorset:area_differs_from_source", f"block {k}: area {b['area']} converted to {src.get('area')}")
     ok, t1 = ctx.call(inst.write_yaml_FPEF)
     if not ok:
         return ctx.violation("floorset:write_raised", f"{t1!r}")
